@@ -6,7 +6,7 @@
    cut-off (and reached), how long its job list was when its turn came, and how many items were dispatched.
    All theorems hold for EVERY state (not only reachable ones), every behaviour table, every environment. *)
 Require Import ZArith List Bool Lia.
-Require Import Verif.gen.Consts_loop Verif.LoopModel Verif.LoopProofs_C10 Verif.LoopProofs_C10w.
+Require Import Verif.gen.Consts_loop Verif.LoopModel Verif.LoopProofs_C10 Verif.LoopProofs_C10w Verif.LoopProofs_C10b Verif.LoopProofs_C10c.
 Import ListNotations.
 Open Scope Z_scope.
 
@@ -65,6 +65,34 @@ Theorem C10_no_starvation : forall beh e1 e2 e3 rs st st' rs' ts p,
   1 <= total_disp ts p.
 Proof. exact no_starvation_workload. Qed.
 
+(* bounded wait for those workloads: over any number of consecutive full turns ([turns] = that many [iteration]s) the
+   items level p dispatched are exactly the first [total_disp] items of its job list as it was at the start extended by
+   what was queued later (FIFO service), and at least min(length at the start, to_process * number of turns in which p
+   was admitted) of them have been dispatched; p is admitted at least once in any three consecutive turns.  So the
+   item at position k of level p is dispatched within 3 * (k / to_process + 1) turns. *)
+Theorem C10_bounded_wait : forall beh envs rs st st' rs' ts p,
+  workload beh -> nosig st -> turns beh envs rs st = (st', rs', ts) -> (forall t, In t ts -> ti_returned t = false) ->
+  exists l pre, jq st p ++ l = pre ++ jq st' p /\ zlen pre = total_disp ts p /\
+    Z.min (zlen (jq st p)) (LOOP_TO_PROCESS * admitted_count ts p) <= total_disp ts p.
+Proof. exact turns_drain. Qed.
+Theorem C10_admitted_every_three : forall beh e1 e2 e3 es rs st st' rs' ts p,
+  turns beh (e1 :: e2 :: e3 :: es) rs st = (st', rs', ts) -> (forall t, In t ts -> ti_returned t = false) ->
+  exists t1 t2 t3 rest, ts = t1 :: t2 :: t3 :: rest /\ 1 <= admitted_count [t1; t2; t3] p.
+Proof. exact admitted_every_three. Qed.
+
+(* no sleeping on queued work (every behaviour table): in every state reachable by a history the three todo counters add up to
+   the number of items on the three job lists ([dd] = their difference); a full turn hands the next one a remaining_todo that
+   is at least the number of items still queued; hence the next epoll_wait is called with timeout 0 while anything is queued *)
+Theorem C10_todo_counts_queued : forall f beh h rnd, dd (run_history_fx f beh h rnd) = 0.
+Proof. exact dd_all_histories. Qed.
+Theorem C10_remaining_covers_queue : forall beh e rs st st' rs' ti, iteration beh e rs st = (st', rs', ti) ->
+  dd st' = dd st /\ (ti_returned ti = false -> dd st = 0 -> qsum st' <= r_remaining rs').
+Proof. exact iteration_dd. Qed.
+Theorem C10_no_sleep_on_queued_work : forall beh e1 e2 rs st st1 rs1 t1,
+  dd st = 0 -> iteration beh e1 rs st = (st1, rs1, t1) -> ti_returned t1 = false -> 0 < qsum st1 ->
+  ti_timeout (snd (iteration beh e2 rs1 st1)) = 0.
+Proof. exact no_sleep_on_queued_work. Qed.
+
 (* opportunities: within every turn the admitted levels are upward closed (a level is admitted together with
    every higher one), hence over any span HIGH >= MED >= LOW; over three consecutive turns exactly 3 : 2 : 1 *)
 Theorem C10_opportunities_turn : forall beh e rs st st' rs' ti p q,
@@ -96,6 +124,11 @@ Print Assumptions C10_served_when_due.
 Print Assumptions C10_quota_exhaustive.
 Print Assumptions C10_no_starvation_all_behaviours.
 Print Assumptions C10_no_starvation.
+Print Assumptions C10_bounded_wait.
+Print Assumptions C10_admitted_every_three.
+Print Assumptions C10_todo_counts_queued.
+Print Assumptions C10_remaining_covers_queue.
+Print Assumptions C10_no_sleep_on_queued_work.
 Print Assumptions C10_opportunities_turn.
 Print Assumptions C10_opportunities_321.
 Print Assumptions C10_example_window.
